@@ -79,6 +79,38 @@ def cases(tier, rng, schema, feats):
                 add("name", "decty", R, cbor.enc(rp(name=t)).hex())
             else:
                 add("name", "dec2", mc(user(name=t, display=t)).hex())
+    # one representative of every lead byte C2..F4 (and the first / last code point of special ranges: surrogate
+    # neighbours, private use, specials U+FFxx, language tags U+E00xx, last code point), at every alignment to the
+    # 64-byte cut, followed by a narrower character, with and without overflow
+    reps = []
+    for lead in range(0xC2, 0xF5):
+        if lead < 0xE0:
+            reps.append(bytes([lead, 0x80 + (lead % 0x40)]).decode())
+        elif lead < 0xF0:
+            second = 0xA0 if lead == 0xE0 else (0x9F if lead == 0xED else 0x80 + (lead % 0x20))
+            reps.append(bytes([lead, second, 0xBF]).decode())
+        else:
+            second = 0x90 if lead == 0xF0 else (0x8F if lead == 0xF4 else 0xA0)
+            reps.append(bytes([lead, second, 0x80, 0xBF]).decode())
+    reps += ["\u007f", "\u0080", "\u07ff", "\u0800", "\ud7ff", "\ue000", "\uf000", "\uf8ff", "\ufeff", "\uff01", "\ufffd", "\uffff",
+             "\U00010000", "\U000e0001", "\U000e0020", "\U000e0065", "\U000e007e", "\U000e007f", "\U000f0000", "\U0010ffff"]
+    for k, c in enumerate(reps):
+        w = len(c.encode())
+        for end in range(62, 69):            # byte offset at which the character ends
+            pre = end - w
+            for tail in ("", "b", "bc" + c, c * 3):
+                t = cbor.T(("x" * pre + c + tail).encode())
+                if (k + end) % 3 == 0:
+                    add("rep", "decty", U, cbor.enc(user(name=t)).hex())
+                elif (k + end) % 3 == 1:
+                    add("rep", "decty", R, cbor.enc(rp(name=t)).hex())
+                else:
+                    add("rep", "dec2", mc(user(name=t, display=t)).hex())
+        # a run of the same character filling the text up to and across the limit
+        for total in (60, 63, 64, 65, 72):
+            m = max(1, total // w)
+            t = cbor.T(("y" * (total - m * w if total >= m * w else 0) + c * m).encode())
+            add("rep", "decty", U, cbor.enc(user(display=t)).hex())
     for L in range(0, 301):
         s = cbor.T(gen.utf8_text(rng, L))
         add("len", "decty", U, cbor.enc(user(name=s, display=cbor.T(gen.utf8_text(rng, L)))).hex())
